@@ -32,8 +32,17 @@ trait Fr: Frame + Copy + PartialEq + 'static {
     const INT: bool;
     fn gen(rng: &mut Rng, mode: u64, idx: usize) -> Self;
     fn show(&self) -> String;
-    /// exact numeric value of every channel (i16 as an integer, f64 itself)
+    /// numeric value of every channel as f64 (exact for f64 and for integers of at most 53 bits)
     fn chans(&self) -> Vec<f64>;
+    /// integer formats: the exact value of every channel
+    fn ints(&self) -> Option<Vec<i128>> { None }
+    /// integer formats: LSBs by which a LINEAR output may leave the interval of its two neighbours / miss the
+    /// source at ratio 1 because of float rounding: 0 for formats of at most 53 bits (every intermediate is exact
+    /// or monotonically rounded), the f64 round-trip bound 2^11 for i64
+    const SLACK: i128 = 0;
+    /// integer formats: LSBs between the output and the exact straight-line blend (truncation: < 1 LSB; i64: plus
+    /// five f64 roundings of at most 2^10 LSB each)
+    const BLEND_TOL: i128 = 1;
 }
 fn gen_f64(rng: &mut Rng, mode: u64, idx: usize, ch: usize) -> f64 {
     match mode {
@@ -68,13 +77,53 @@ impl Fr for i16 {
     fn gen(rng: &mut Rng, mode: u64, idx: usize) -> Self { gen_i16(rng, mode, idx, 0) }
     fn show(&self) -> String { format!("{}", self) }
     fn chans(&self) -> Vec<f64> { vec![*self as f64] }
+    fn ints(&self) -> Option<Vec<i128>> { Some(vec![*self as i128]) }
 }
 impl Fr for [i16; 2] {
     const FMT: &'static str = "i16"; const INT: bool = true;
     fn gen(rng: &mut Rng, mode: u64, idx: usize) -> Self { [gen_i16(rng, mode, idx, 0), gen_i16(rng, mode, idx, 1)] }
     fn show(&self) -> String { format!("{},{}", self[0], self[1]) }
     fn chans(&self) -> Vec<f64> { vec![self[0] as f64, self[1] as f64] }
+    fn ints(&self) -> Option<Vec<i128>> { Some(vec![self[0] as i128, self[1] as i128]) }
 }
+
+fn gen_wide(rng: &mut Rng, mode: u64, idx: usize, ch: usize, lo: i128, hi: i128) -> i128 {
+    let mid = (lo + hi + 1) / 2;                       // equilibrium
+    let half = hi - mid;                               // positive half-range
+    let sgn: i128 = if ch == 1 { -1 } else { 1 };
+    let v = match mode {
+        0 => mid + sgn * (((idx as i128 + 1) * 1_000_000_007) % (half + 1)),          // ramp, > 24 significant bits
+        1 => rng.range_i128(lo, hi),
+        2 => *rng.pick(&[mid, mid + 1, mid - 1, hi, lo, hi - 3, lo + 3, mid + 1_000_000_007 % (half + 1), mid - 16_777_217, mid + 16_777_217, mid + half / 3, mid - half / 7 * 5]),
+        _ => mid + rng.range_i128(-300, 300),
+    };
+    v.max(lo).min(hi)
+}
+macro_rules! wide_impl {
+    ($T:ty, $name:expr, $slack:expr, $btol:expr) => {
+        impl Fr for $T {
+            const FMT: &'static str = $name; const INT: bool = true;
+            const SLACK: i128 = $slack; const BLEND_TOL: i128 = $btol;
+            fn gen(rng: &mut Rng, mode: u64, idx: usize) -> Self { gen_wide(rng, mode, idx, 0, <$T>::MIN as i128, <$T>::MAX as i128) as $T }
+            fn show(&self) -> String { format!("{}", self) }
+            fn chans(&self) -> Vec<f64> { vec![*self as f64] }
+            fn ints(&self) -> Option<Vec<i128>> { Some(vec![*self as i128]) }
+        }
+        impl Fr for [$T; 2] {
+            const FMT: &'static str = $name; const INT: bool = true;
+            const SLACK: i128 = $slack; const BLEND_TOL: i128 = $btol;
+            fn gen(rng: &mut Rng, mode: u64, idx: usize) -> Self {
+                [gen_wide(rng, mode, idx, 0, <$T>::MIN as i128, <$T>::MAX as i128) as $T, gen_wide(rng, mode, idx, 1, <$T>::MIN as i128, <$T>::MAX as i128) as $T]
+            }
+            fn show(&self) -> String { format!("{},{}", self[0], self[1]) }
+            fn chans(&self) -> Vec<f64> { vec![self[0] as f64, self[1] as f64] }
+            fn ints(&self) -> Option<Vec<i128>> { Some(vec![self[0] as i128, self[1] as i128]) }
+        }
+    };
+}
+wide_impl!(i32, "i32", 0, 1);
+wide_impl!(u32, "u32", 0, 1);
+wide_impl!(i64, "i64", 2048, 8192);
 
 // ---------------------------------------------------------------- instrumented source
 
@@ -294,27 +343,47 @@ where F::Sample: dasp_sample::Duplex<f64> {
                     if frame == lf { st.oracle_ok(1); } else { st.oracle_fail(&format!("output {}: floor output is not the source frame at floor(P_n)", n_out), &case_text, &lf.show(), &frame.show()); }
                 } else {
                     let rf = src_at(&c.frames, fl + 1);
+                    if let (Some(li), Some(ri), Some(oi)) = (lf.ints(), rf.ints(), frame.ints()) {
+                        // integer formats: exact arithmetic, position fraction fr / 2^60
+                        for k in 0..ch {
+                            let (a, b, v) = (li[k], ri[k], oi[k]);
+                            let (lo, hi) = if a <= b { (a, b) } else { (b, a) };
+                            if v >= lo - F::SLACK && v <= hi + F::SLACK { st.oracle_ok(1); if v < lo || v > hi { st.count("linear_outside_within_rounding_slack"); } }
+                            else { st.oracle_fail(&format!("output {}: linear output outside the interval spanned by the two frames", n_out), &case_text, &format!("[{}, {}]", lo, hi), &format!("{}", v)); }
+                            let num = (a << FIX) + (b - a) * fr as i128;                 // exact blend * 2^60
+                            let dev = ((v << FIX) - num).abs();
+                            // off the 2^-20 grid the f64 position differs from the exact one by < 2^-40
+                            let allow = (F::BLEND_TOL << FIX) + ((b - a).abs() << 20) + (1i128 << 30);
+                            if dev <= allow { st.oracle_ok(1); }
+                            else { st.oracle_fail(&format!("output {}: linear output is not the straight-line blend at the fraction of P_n", n_out), &case_text, &format!("{}/2^60", num), &format!("{}", v)); }
+                        }
+                    } else {
                     let x = fr as f64 / (1u128 << FIX) as f64;      // exact on the grid, within 2^-53 otherwise
                     let (lc, rc, oc) = (lf.chans(), rf.chans(), frame.chans());
                     for k in 0..ch {
                         let (a, b, v) = (lc[k], rc[k], oc[k]);
                         let (lo, hi) = if a <= b { (a, b) } else { (b, a) };
                         let mag = a.abs().max(b.abs());
-                        // float rounding allowance: none for i16 (every intermediate is exact or monotonically rounded),
-                        // a few ulps of the larger operand for f64 frames
-                        let tol = if F::INT { 0.0 } else { mag * 1e-15 };
+                        // float rounding allowance: a few ulps of the larger operand for f64 frames
+                        let tol = mag * 1e-15;
                         if v >= lo - tol && v <= hi + tol { st.oracle_ok(1); }
                         else { st.oracle_fail(&format!("output {}: linear output outside the interval spanned by the two frames", n_out), &case_text, &format!("[{:e}, {:e}]", lo, hi), &format!("{:e}", v)); }
                         let blend = a + (b - a) * x;
-                        let tol2 = if F::INT { 1.0 + 1e-9 } else { (mag + (b - a).abs()) * 4e-15 };
+                        let tol2 = (mag + (b - a).abs()) * 4e-15;
                         if (v - blend).abs() <= tol2 { st.oracle_ok(1); }
                         else { st.oracle_fail(&format!("output {}: linear output is not the straight-line blend at the fraction of P_n", n_out), &case_text, &format!("{:e}", blend), &format!("{:e}", v)); }
+                    }
                     }
                 }
                 // ratio exactly 1 reproduces the source
                 if all_one {
                     let want = src_at(&c.frames, n_out);
-                    if frame == want { st.oracle_ok(1); } else { st.oracle_fail(&format!("output {}: ratio 1 does not reproduce the source", n_out), &case_text, &want.show(), &frame.show()); }
+                    let same = if c.linear && F::SLACK > 0 {
+                        // i64 through the linear interpolator: the f64 round trip costs up to 2^11 LSB (stated bound)
+                        let (w, o) = (want.ints().unwrap(), frame.ints().unwrap());
+                        (0..ch).all(|k| (w[k] - o[k]).abs() <= F::SLACK)
+                    } else { frame == want };
+                    if same { st.oracle_ok(1); } else { st.oracle_fail(&format!("output {}: ratio 1 does not reproduce the source", n_out), &case_text, &want.show(), &frame.show()); }
                 }
             } else { st.count("position_oracle_skipped_near_integer"); }
         }
@@ -394,7 +463,7 @@ fn emit<F: Fr>(c: &Case<F>, st: &mut Stream) where F::Sample: dasp_sample::Duple
 fn run(a: &Args) {
     let mut st = Stream::new(&a.out, "conv");
     let mut rng = Rng::new(a.seed, "conv");
-    let reps = if a.thorough() { 150 } else { 4 };
+    let reps = if a.thorough() { 150 } else { 6 };
     // fixed corner cases: constructor assertion, the doc examples' ratio 0.5 on 3-4 frames
     for &s in &[0.0, -1.0, f64::NAN] {
         let c = Case::<f64> { linear: false, ctor: Ctor::P(s), frames: vec![0.5, -0.5], ops: vec![Op::Out] };
@@ -407,11 +476,17 @@ fn run(a: &Args) {
         for len in 0..=40usize {
             for kind in 0..8u64 {
                 for &linear in &[false, true] {
-                    match rng.below(4) {
+                    match rng.below(10) {
                         0 => { let c = gen_case::<f64>(&mut rng, linear, len, kind, &mut st); emit(&c, &mut st) }
                         1 => { let c = gen_case::<[f64; 2]>(&mut rng, linear, len, kind, &mut st); emit(&c, &mut st) }
                         2 => { let c = gen_case::<i16>(&mut rng, linear, len, kind, &mut st); emit(&c, &mut st) }
-                        _ => { let c = gen_case::<[i16; 2]>(&mut rng, linear, len, kind, &mut st); emit(&c, &mut st) }
+                        3 => { let c = gen_case::<[i16; 2]>(&mut rng, linear, len, kind, &mut st); emit(&c, &mut st) }
+                        4 => { let c = gen_case::<i32>(&mut rng, linear, len, kind, &mut st); emit(&c, &mut st) }
+                        5 => { let c = gen_case::<[i32; 2]>(&mut rng, linear, len, kind, &mut st); emit(&c, &mut st) }
+                        6 => { let c = gen_case::<u32>(&mut rng, linear, len, kind, &mut st); emit(&c, &mut st) }
+                        7 => { let c = gen_case::<[u32; 2]>(&mut rng, linear, len, kind, &mut st); emit(&c, &mut st) }
+                        8 => { let c = gen_case::<i64>(&mut rng, linear, len, kind, &mut st); emit(&c, &mut st) }
+                        _ => { let c = gen_case::<[i64; 2]>(&mut rng, linear, len, kind, &mut st); emit(&c, &mut st) }
                     }
                 }
             }
@@ -425,6 +500,12 @@ fn run(a: &Args) {
                 let c = gen_case::<[f64; 2]>(&mut rng, linear, len, kind, &mut st); emit(&c, &mut st);
                 let c = gen_case::<i16>(&mut rng, linear, len, kind, &mut st); emit(&c, &mut st);
                 let c = gen_case::<[i16; 2]>(&mut rng, linear, len, kind, &mut st); emit(&c, &mut st);
+                let c = gen_case::<i32>(&mut rng, linear, len, kind, &mut st); emit(&c, &mut st);
+                let c = gen_case::<[i32; 2]>(&mut rng, linear, len, kind, &mut st); emit(&c, &mut st);
+                let c = gen_case::<u32>(&mut rng, linear, len, kind, &mut st); emit(&c, &mut st);
+                let c = gen_case::<[u32; 2]>(&mut rng, linear, len, kind, &mut st); emit(&c, &mut st);
+                let c = gen_case::<i64>(&mut rng, linear, len, kind, &mut st); emit(&c, &mut st);
+                let c = gen_case::<[i64; 2]>(&mut rng, linear, len, kind, &mut st); emit(&c, &mut st);
             }
         }
     }
